@@ -82,7 +82,16 @@ pub struct HeightPlan {
     /// `max_tx_bytes` CometBFT passes: an offset class
     pub max_bytes: u8,
     pub mutation_seed: u16,
+    /// `Some((k, d))`: the proposer is first asked for a round-0 proposal under a 1 MiB limit;
+    /// the limit of the real (round 1) proposal is then placed `SLACKS[d]` bytes below the end of
+    /// the k-th transaction of that probe, so that the byte counter of `PrepareProposal` is
+    /// exercised exactly at (and a few bytes around) a transaction boundary.
+    #[serde(default)]
+    pub fit: Option<(u8, u8)>,
 }
+
+/// bytes missing for the cut transaction to fit (0: it fits exactly)
+const SLACKS: [usize; 10] = [0, 1, 2, 7, 31, 63, 64, 65, 130, 1000];
 
 #[derive(Clone, Debug, Serialize, Deserialize)]
 pub struct Case {
@@ -138,12 +147,14 @@ fn case(tier: Tier) -> BoxedStrategy<Case> {
         proptest::collection::vec(vote_spec(), 0..4),
         any::<u8>(),
         any::<u16>(),
+        proptest::option::weighted(0.35, (any::<u8>(), 0_u8..SLACKS.len() as u8)),
     )
-        .prop_map(|(txs, votes, max_bytes, mutation_seed)| HeightPlan {
+        .prop_map(|(txs, votes, max_bytes, mutation_seed, fit)| HeightPlan {
             txs,
             votes,
             max_bytes,
             mutation_seed,
+            fit,
         });
     (
         world::genesis_spec(b.bridge_genesis_pct),
@@ -174,6 +185,7 @@ fn case(tier: Tier) -> BoxedStrategy<Case> {
                     votes: vec![],
                     max_bytes: 0,
                     mutation_seed: 7,
+                    fit: None,
                 };
                 let second = HeightPlan {
                     txs: vec![ATx {
@@ -185,6 +197,7 @@ fn case(tier: Tier) -> BoxedStrategy<Case> {
                     votes: vec![],
                     max_bytes: 0,
                     mutation_seed: 11,
+                    fit: None,
                 };
                 heights.insert(0, second);
                 heights.insert(0, first);
@@ -742,7 +755,7 @@ async fn run_case(case: &Case, mode: Mode, ctx: &mut Ctx) -> CaseResult {
         }
         let mempool_before = proposer.mempool_len().await;
         // ---- honest proposal ----------------------------------------------------------------
-        let max_tx_bytes: i64 = match plan.max_bytes % 6 {
+        let mut max_tx_bytes: i64 = match plan.max_bytes % 6 {
             0 => 1_048_576,
             1 => 300_000,
             2 => 140_000,
@@ -750,9 +763,42 @@ async fn run_case(case: &Case, mode: Mode, ctx: &mut Ctx) -> CaseResult {
             4 => 2_000 + i64::from(plan.max_bytes) * 16,
             _ => 400 + i64::from(plan.max_bytes),
         };
+        let has_upgrade_item = height == case.genesis.aspen_height() || height == case.genesis.blackburn_height();
+        let injected = 2 + usize::from(has_upgrade_item) + usize::from(ve_enabled);
+        let mut round = 0;
+        if let (Mode::C06, Some((k, d))) = (mode, plan.fit) {
+            // round 0 is a probe under a generous limit (a proposer whose round timed out is asked
+            // again in a later round; the mempool is untouched by PrepareProposal)
+            let probe = BlockCtx {
+                height,
+                round: 0,
+                max_tx_bytes: 1_048_576,
+                last_commit: last_commit.clone(),
+            };
+            if let Ok(response) = proposer.prepare_proposal(probe.prepare_request()).await {
+                let sizes: Vec<usize> = response.txs.iter().map(Bytes::len).collect();
+                let n_txs = sizes.len().saturating_sub(injected);
+                if n_txs > 0 {
+                    let k = 1 + ((usize::from(k) * n_txs) >> 8); // 1..=n_txs
+                    let upto: usize = sizes[..injected + k].iter().sum();
+                    let cut = sizes[injected + k - 1];
+                    let slack = SLACKS[usize::from(d) % SLACKS.len()].min(cut - 1);
+                    max_tx_bytes = (upto - slack) as i64;
+                    round = 1;
+                    ctx.label(format!(
+                        "limit-fitted-to-tx-boundary:{}",
+                        match slack {
+                            0 => "exact",
+                            1..=64 => "1-64-bytes-short",
+                            _ => "65+-bytes-short",
+                        }
+                    ));
+                }
+            }
+        }
         let block_ctx = BlockCtx {
             height,
-            round: 0,
+            round,
             max_tx_bytes,
             last_commit,
         };
@@ -770,8 +816,6 @@ async fn run_case(case: &Case, mode: Mode, ctx: &mut Ctx) -> CaseResult {
                 return Ok(());
             }
         };
-        let has_upgrade_item = height == case.genesis.aspen_height() || height == case.genesis.blackburn_height();
-        let injected = 2 + usize::from(has_upgrade_item) + usize::from(ve_enabled);
         let Some(decoded) = decode_block(&block, injected.min(block.len())) else {
             vensure!(false, "proposal-contains-undecodable-tx", "height {height}: PrepareProposal returned a transaction that does not decode");
             unreachable!()
